@@ -500,12 +500,12 @@ inline void supervise(const Part &part, const Options &opt, Agg &agg) {
           ++confirmedHangs;
           agg.viol.push_back({"hang", "case exceeded its CPU budget twice (" + std::to_string(budget) + " s, then alone with " + std::to_string(budget * kSoloFactor) + " s of CPU time): the call does not return", inflight, ""});
           while (pos < todo.size() && todo[pos] <= inflight) ++pos;
-        } else if (confirmedHangs >= 2) {
-          // two hangs are already confirmed in this shard: the verdict is established, every further overrun would burn a whole
+        } else if (confirmedHangs >= 1) {
+          // a hang is already confirmed in this shard: the verdict is established, every further overrun would burn a whole
           // budget; the rest of the shard is not run (reported as not completed)
           agg.inconclusive++;
           agg.crashed++;
-          agg.counters["shard_stopped_after_two_confirmed_hangs"] += 1;
+          agg.counters["shard_stopped_after_a_confirmed_hang"] += 1;
           unlink(errPath);
           break;
         }
